@@ -27,18 +27,24 @@ def panel_flags(panel, fld, d):
 
 
 # --------------------------------------------------------------------------------------------- IR interpreter
-def interp_kernel(K, consts, panel, params, size, row0, col0):
-    """dense (size x size) accumulation of the COO triplets the kernel source would produce"""
+def interp_kernel(K, consts, panel, params, size, row0, col0, objs=None):
+    """dense (size x size) accumulation of the COO triplets the kernel source would produce.
+    `objs`: {parameter name: object} for kernels reading several objects (p1, p2)."""
     num = consts.get('num', 3)
     out = np.zeros((size, size))
     base = {}
+
+    def obj_of(nm):
+        if objs is None:
+            return panel
+        return objs[K.objs[nm]]
     for nm, attr in K.attrs.items():
         if attr == 'ABD':
             continue
         if attr == 'h':
             base[nm] = float(sum(panel.plyts))
         else:
-            base[nm] = getattr(panel, attr)
+            base[nm] = getattr(obj_of(nm), attr)
     for nm in K.params:
         if nm in params:
             base[nm] = params[nm]
@@ -63,9 +69,8 @@ def interp_kernel(K, consts, panel, params, size, row0, col0):
 
     def jval(at, env):
         i1, i2 = int(env[at.idx1]), int(env[at.idx2])
-        fl1 = tuple(float(base[n]) if n in base else float('nan') for n in at.fl1[2 + 0:3][0]) if False else None
-        f1 = tuple(float(getattr(panel, r)) if not r.startswith('?') else float('nan') for r in at.fl1[2])
-        f2 = tuple(float(getattr(panel, r)) if not r.startswith('?') else float('nan') for r in at.fl2[2])
+        f1 = tuple(float(base[n]) if n in base else float('nan') for n in at.names1)
+        f2 = tuple(float(base[n]) if n in base else float('nan') for n in at.names2)
         if at.bounds is None:
             x1, x2 = -1., 1.
         else:
@@ -92,6 +97,9 @@ def interp_kernel(K, consts, panel, params, size, row0, col0):
                 return
             for nm, at in K.atoms.items():
                 env[nm] = jval(at, env)
+            for nm, pa in K.patoms.items():
+                fl = tuple(float(base[n]) if n in base else float('nan') for n in pa.names)
+                env[nm] = bardell.phi(pa.d, int(env[pa.idx]), fl, float(env[pa.point]))
             for e in K.entries:
                 out[row + e.ro, col + e.co] += pyx.evaluate(e.expr, env)
             return
